@@ -2,6 +2,7 @@
 from __future__ import annotations
 
 import sys
+import types as _types_mod
 from typing import Any, Dict, Iterable, List, Optional
 
 import pydantic
@@ -19,7 +20,7 @@ from vt.harness import traps
 PID = "C20"
 PROBE_ARG = "\x00vt-probe"
 RULE = (
-    "(1) 'all_names': EXHAUSTIVE enumeration of every (module, name) with name in vars(module) for every module in "
+    "(1) 'all_names': EXHAUSTIVE enumeration of every (module, name) with name in vars(module) - plus, for modules with a module-level __getattr__, the names they advertise in __all__ / dir() and serve lazily - for every module in "
     "sys.modules after importing taskiq, its CLI and the harness (~17 000 pairs; a deny-list of ~40 names whose call "
     "would be destructive if the gate were broken is skipped and counted), each loaded at top level and nested under "
     "exc_cause / exc_context at depth 1-3 of a valid outer error, through exception_to_python and through "
@@ -28,7 +29,7 @@ RULE = (
     "non-exception classes with recording __new__/__init__ / a metaclass-callable class / exception instances / "
     "modules / builtins eval, print, type, object - reached by dotted paths of length 1-4 through module and class "
     "attributes - as well as exception classes (incl. nested and aliased ones, one whose constructor always fails), "
-    "unresolvable names, exc_module=None, nodes given as the wrapper object of pickle-encoded results instead of the dict form, modules that are not loaded (including a planted importable-but-unloaded "
+    "unresolvable names, exc_module=None, nodes given as the wrapper object of pickle-encoded results instead of the dict form, a planted loaded module that serves names lazily by importing another module, modules that are not loaded (including a planted importable-but-unloaded "
     "module whose import leaves a marker); args of any JSON shape. Oracle: the outcome is a BaseException instance, or "
     "SecurityError, or pydantic ValidationError/ValueError - nothing else; no trap was called or instantiated; "
     "set(sys.modules) is unchanged and the marker absent; an unresolvable name yields a synthetic Exception subclass "
@@ -40,7 +41,8 @@ RULE = (
     "is non-trivial when module state changed between two loads."
 )
 ASSUMPTIONS = [
-    "names served only by a module-level __getattr__ (PEP 562) are outside the enumeration (vars(module) only)",
+    "a name a loaded module only serves on demand through a module-level __getattr__ (PEP 562) counts as NOT resolvable: resolving it would import modules, "
+    "which the property forbids; the enumeration adds the names such modules advertise in __all__ / dir() to vars(module)",
     "every payload carries the single argument '\\x00vt-probe' in the exhaustive part so that a broken gate cannot do damage",
 ]
 
@@ -73,6 +75,15 @@ def all_pairs() -> List[Any]:
                 names = sorted(n for n in vars(mod) if isinstance(n, str))
             except TypeError:
                 continue
+            if "__getattr__" in names:
+                # names the module serves on demand (PEP 562): advertised in __all__ / dir() but absent from its namespace
+                extra = set()
+                try:
+                    extra |= {n for n in (getattr(mod, "__all__", None) or ()) if isinstance(n, str)}
+                    extra |= {n for n in dir(mod) if isinstance(n, str)}
+                except Exception:  # noqa: BLE001
+                    pass
+                names = sorted(set(names) | extra)
             for n in names:
                 if "." in n:
                     continue
@@ -106,11 +117,12 @@ TRAP_TARGETS = [
 EXC_TARGETS = [
     ("vt_trapmod", "GoodExc"), ("vt_trapmod", "GoodBase"), ("vt_trapmod", "NotExc.InnerExc"), ("vt_trapmod", "exc_type_alias"),
     ("vt_trapmod", "sub.SubExc"), ("vt_trapmod.sub", "SubExc"), ("builtins", "ValueError"), ("builtins", "KeyboardInterrupt"),
-    ("vt_trapmod", "CtorFails"), ("taskiq.exceptions", "TaskiqError"), ("asyncio", "CancelledError"), ("vt_trapmod", "exc_instance.__class__"),
+    ("vt_trapmod", "CtorFails"), ("vt_trapmod_lazy", "Eager"), ("taskiq.exceptions", "TaskiqError"), ("asyncio", "CancelledError"), ("vt_trapmod", "exc_instance.__class__"),
 ]
 UNRESOLVED = [
     ("vt_trapmod", "nope"), ("vt_trapmod", "GoodExc.nope"), ("vt_trapmod", "sub.nope.deeper"), ("builtins", "NoSuchError"),
     ("vt_unloaded_trap", "Boom"), ("vt_unloaded_trap", "run"), ("not.a.loaded.module", "X"), ("json.nonexistent_submodule", "X"),
+    ("vt_trapmod_lazy", "LazyExc"), ("vt_trapmod_lazy", "lazy_func"), ("vt_trapmod_lazy", "lazy_sub.run"), ("vt_trapmod_lazy", "nope"),
     ("vt_trapmod", ""), ("", "ValueError"), (None, "SomeRemoteError"), (None, "eval"), (None, "os.system"),
 ]
 JSONV = st.recursive(st.one_of(st.none(), st.booleans(), st.integers(-10**6, 10**6), st.text(max_size=4)),
@@ -152,7 +164,15 @@ def resolve(module: Optional[str], name: str) -> Any:
     obj: Any = sys.modules[module]
     try:
         for part in name.split("."):
-            obj = getattr(obj, part)
+            if isinstance(obj, _types_mod.ModuleType):
+                # what a module HAS, not what it would fetch on demand: a module-level __getattr__ (PEP 562) may import
+                # modules, and "resolved" means resolved without importing anything
+                ns = vars(obj)
+                if part not in ns:
+                    return "unresolved", None
+                obj = ns[part]
+            else:
+                obj = getattr(obj, part)
     except AttributeError:
         return "unresolved", None
     return "object", obj
